@@ -2,6 +2,7 @@ package simrt
 
 import (
 	"fmt"
+	"runtime/debug"
 	"sort"
 	"strings"
 	"sync"
@@ -34,6 +35,7 @@ type Task struct {
 	Stack   string
 	Hits    []SharedHit // shared sites reached (capped)
 
+	ring    [256]int32
 	resume  chan struct{}
 	started bool
 	done    bool
@@ -45,6 +47,27 @@ type Task struct {
 }
 
 type abortSentinel struct{ why string }
+
+// cycle names the loop the task is spinning in: the distinct loop-head sites
+// among its last 256 steps, sorted. Unlike the site at which the budget
+// happened to run out, this does not depend on the budget's value.
+func (t *Task) cycle() string {
+	seen := map[string]bool{}
+	for _, id := range t.ring {
+		if id >= 0 && int(id) < len(Sites) && Sites[id].Kind == "loop" {
+			seen[Sites[id].Name] = true
+		}
+	}
+	if len(seen) == 0 {
+		return "?"
+	}
+	names := make([]string, 0, len(seen))
+	for n := range seen {
+		names = append(names, n)
+	}
+	sort.Strings(names)
+	return strings.Join(names, "+")
+}
 
 // Race is a pair of conflicting accesses by two tasks not ordered by any
 // simulated synchronisation.
@@ -132,8 +155,9 @@ func Yield(id int) {
 	t := s.cur
 	t.Steps++
 	s.GlobalStep++
+	t.ring[t.Steps&255] = int32(id)
 	if t.Steps > t.Budget {
-		panic(abortSentinel{"step budget exhausted at " + SiteName(id)})
+		panic(abortSentinel{"step budget exhausted at " + t.cycle()})
 	}
 	if t.kill != "" {
 		panic(abortSentinel{t.kill})
@@ -318,10 +342,41 @@ func (t *Task) run() {
 				t.Aborted = a.why
 			} else {
 				t.Panic = normPanic(r)
+				t.Stack = panicSite(string(debug.Stack()))
+				if t.Panic == "" {
+					t.Panic = "panic"
+				}
 			}
 		}
 	}()
 	t.Fn()
+}
+
+// panicSite extracts from a stack trace the innermost function of the
+// instrumented module (not simrt itself) below the panic.
+func panicSite(stack string) string {
+	lines := strings.Split(stack, "\n")
+	seenPanic := false
+	for _, l := range lines {
+		if strings.HasPrefix(l, "panic(") {
+			seenPanic = true
+			continue
+		}
+		if !seenPanic || strings.HasPrefix(l, "\t") {
+			continue
+		}
+		if strings.Contains(l, "/simrt.") || !strings.Contains(l, "/v2") {
+			continue
+		}
+		if i := strings.LastIndex(l, "("); i > 0 {
+			l = l[:i]
+		}
+		if i := strings.Index(l, "/v2"); i >= 0 {
+			l = l[i+3:]
+		}
+		return strings.TrimPrefix(l, "/")
+	}
+	return ""
 }
 
 // NewSched builds a simulation over the given task bodies.
@@ -645,6 +700,7 @@ func Protect(fn func()) (panicMsg string) {
 			if panicMsg == "" {
 				panicMsg = "panic"
 			}
+			panicMsg += " @" + panicSite(string(debug.Stack()))
 		}
 	}()
 	fn()
